@@ -704,6 +704,44 @@ class SymIter:
         raise Unsupported('SymIter.cut')
 
 
+class SymSeq:
+    """A snapshot of a symbolic queue's content as a sequence: elements ids arr[lo..hi-1] (lo <= hi).  Supports slicing with
+    concrete bounds (Python's clamping) and universally / existentially quantified reductions (any / all over a generator
+    expression): enough for scans such as `any(pred(x) for x in list(q)[1:])` - for every length, without unrolling."""
+
+    def __init__(self, arr, lo, hi, name, elem=None):
+        self.arr, self.lo, self.hi, self.name = arr, lo, hi, name
+        self.elem = elem            # None: element j is the queue item with id arr[j]; else elem(E, j) (e.g. the integer j of a range)
+
+    def slice(self, start, stop):
+        n = self.hi - self.lo
+
+        def pos(b, default):
+            if b is None:
+                return default
+            if not isinstance(b, int) or isinstance(b, bool):
+                raise Unsupported('slice of a symbolic sequence with a symbolic bound')
+            if b >= 0:
+                return z3.If(n >= b, z3.IntVal(b), n)
+            return z3.If(n + b >= 0, n + b, z3.IntVal(0))
+        a, b = pos(start, z3.IntVal(0)), pos(stop, n)
+        return SymSeq(self.arr, z3.simplify(self.lo + a), z3.simplify(self.lo + z3.If(b >= a, b, a)), self.name, self.elem)
+
+
+class SymSeqIteration(Unsupported):
+    """raised by concrete_iter for a SymSeq: the caller either knows a quantified rule for it or reports Unsupported"""
+
+    def __init__(self, seq):
+        self.seq = seq
+
+
+class SymGen:
+    """generator expression `elt for target in <SymSeq>` (one clause, no filter), not yet consumed"""
+
+    def __init__(self, seq, node, env):
+        self.seq, self.node, self.env = seq, node, env
+
+
 class BlackHole:
     """logger(): every attribute is a no-op callable."""
 
@@ -1344,6 +1382,10 @@ def smap_pop(E, m, k, default=NOATTR):
 # =========================================================================== subscripts
 
 def getitem(E, obj, idx):
+    if isinstance(obj, SymSeq):
+        if isinstance(idx, slice) and idx.step is None:
+            return obj.slice(idx.start, idx.stop)
+        raise Unsupported('indexing a symbolic sequence')
     if is_byteslike(obj):
         if isinstance(idx, slice):
             if idx.step is not None:
@@ -1408,6 +1450,22 @@ def getitem(E, obj, idx):
     if isinstance(obj, _aio.QueueView):
         if isinstance(idx, int) and idx == 0:
             return _aio.sq_peek(E, obj.q)
+        if isinstance(idx, (int, SInt)) and not isinstance(idx, bool):
+            # deque[i]: i-th queued item (negative indices count from the tail); IndexError outside
+            ss = obj.q.attrs['_sym']
+            n = ss['t'] - ss['h']
+            i = I(idx)
+            rng = E.path.ghost.get('seq_bounds', {}).get(str(i))
+            if rng is not None:
+                # the bound variable of any()/all() over a symbolic range: the index must be in range for EVERY element
+                lo, hi = rng
+                if E.path.check(z3.And(lo < hi, z3.Or(lo < 0, hi > n))) != z3.unsat:
+                    raise Unsupported('deque index over a symbolic range that is not provably inside the deque')
+                return _aio.registry(E).obj_of(z3.Select(ss['arr'], ss['h'] + i), '%s[%s]' % (ss['name'], idx))
+            if E.decide(mk_bool(z3.Or(i >= n, i < -n)), 'deque-index-out-of-range'):
+                E.throw('IndexError', 'deque index out of range')
+            pos = z3.If(i >= 0, ss['h'] + i, ss['t'] + i)
+            return _aio.registry(E).obj_of(z3.Select(ss['arr'], pos), '%s[%s]' % (ss['name'], idx))
         raise Unsupported('queue view index %r' % (idx,))
     if isinstance(obj, (ENG.PyFunc, ENG.BoundMethod, ENG.Builtin, int, bool, SInt, SBool)):
         E.throw('TypeError', "'%s' object is not subscriptable" % type(obj).__name__)
@@ -1559,6 +1617,11 @@ def concrete_iter(E, v):
             return list(v.attrs['items'])
     if v is None:
         E.throw('TypeError', "'NoneType' object is not iterable")
+    if isinstance(v, SymSeq):
+        raise SymSeqIteration(v)
+    if isinstance(v, SymRange) and v.on_each is None:
+        a, b = I(v.start), I(v.stop)
+        raise SymSeqIteration(SymSeq(None, a, z3.If(b >= a, b, a), 'range', elem=lambda E_, j: mk_int(j)))
     if isinstance(v, (ENG.PyFunc, ENG.BoundMethod, ENG.Builtin, int, bool, SInt, SBool)):
         E.throw('TypeError', "'%s' object is not iterable" % type(v).__name__)
     raise Unsupported('iteration over %r' % (v,))
@@ -2138,6 +2201,12 @@ def make_builtins(E):
     def _len(v):
         if isinstance(v, (list, tuple, dict, str, set, frozenset, bytes, bytearray)):
             return len(v)
+        from . import aio as _aio2
+        if isinstance(v, _aio2.QueueView):
+            ss = v.q.attrs['_sym']
+            return mk_int(ss['t'] - ss['h'])
+        if isinstance(v, SymSeq):
+            return mk_int(v.hi - v.lo)
         if isinstance(v, (SBytes, SByteArray)):
             n = lift_bytes(v).n
             return n if isinstance(n, int) else mk_int(n)
@@ -2374,7 +2443,15 @@ def make_builtins(E):
             return mk_int(z3.If(v.e >= 0, v.e, -v.e))
         raise Unsupported('abs')
     reg('abs', _abs)
-    reg('list', lambda v=(): concrete_iter(E, v) if not isinstance(v, SymIter) else v)
+    def _list(v=()):
+        from . import aio as _aio
+        if isinstance(v, _aio.QueueView):
+            ss = v.q.attrs['_sym']
+            return SymSeq(ss['arr'], ss['h'], ss['t'], ss['name'])
+        if isinstance(v, (SymIter, SymSeq)):
+            return v
+        return concrete_iter(E, v)
+    reg('list', _list)
     reg('tuple', lambda v=(): tuple(concrete_iter(E, v)))
     reg('set', lambda v=(): set(concrete_iter(E, v)))
     reg('frozenset', lambda v=(): frozenset(concrete_iter(E, v)))
@@ -2475,6 +2552,23 @@ def make_builtins(E):
 
 
 def _anyall(E, it, is_any):
+    if isinstance(it, SymGen):
+        # any/all over a symbolic sequence: the element expression evaluated ONCE on a generic element arr[j] (j bound), without
+        # branching on it; the result is the quantified formula.  Sound for element expressions that are pure tests.
+        from . import aio as _aio
+        seq, g = it.seq, it.node.generators[0]
+        j = z3.Int(E.path.fresh_name('seq.j'))
+        probe = seq.elem(E, j) if seq.elem is not None else _aio.registry(E).obj_of(z3.Select(seq.arr, j), '%s[j]' % seq.name)
+        E.path.ghost.setdefault('seq_bounds', {})[str(j)] = (seq.lo, seq.hi)
+        cenv = ENG.Env(it.env.module, it.env.func, it.env)
+        E.assign(g.target, probe, cenv)
+        depth = len(E.path.sig)
+        t = E.truth(E.eval(it.node.elt, cenv))
+        if len(E.path.sig) != depth:
+            raise Unsupported('the element test of any()/all() over a symbolic sequence branches on the element')
+        body = B(t)
+        rng = z3.And(j >= seq.lo, j < seq.hi)
+        return mk_bool(z3.Exists([j], z3.And(rng, body)) if is_any else z3.ForAll([j], z3.Implies(rng, body)))
     acc = []
     for x in concrete_iter(E, it):
         t = E.truth(x)
